@@ -109,6 +109,11 @@ def loops():
     out.append(_t("export function f(int a) -> int { int i = a; while (i > 5) ; return i; }", "while empty never", ["loop", "while"], {"a": (-3, 5)}))
     out.append(_t("export function f(int n) -> int { int s = 0; int i = 0; for (; i < n; ) { s += 2; i++; } return s * 10 + i; }", "for empty parts", ["loop", "for"], NB))
     out.append(_t("export function f(int n, int a) -> int { int s = 0; for (int i = 0; ; ++i) { if (i >= n) break; s += a; } return s; }", "for no cond", ["loop", "for", "break"], NB))
+    # a loop as the very first statement of the function (its test block is the function's first block)
+    out.append(_t("export function f(int a) -> int { while (a > 0) { a = a - 3; } return a; }", "while first statement", ["loop", "while"], {"a": (-3, 9)}))
+    out.append(_t("export function f(int a) -> int { do { a = a - 3; } while (a > 0) return a; }", "do first statement", ["loop", "do"], {"a": (-3, 9)}))
+    out.append(_t("export function f(int a) -> int { for (; a > 0; ) { a = a - 3; if (a == 1) break; } return a; }", "for without init first statement", ["loop", "for"], {"a": (-3, 9)}))
+    out.append(_t("export function f(int a) -> int { while (a > 0) { if (a == 4) { a = a - 1; continue; } a = a - 2; } return a; }", "while first statement with continue", ["loop", "while", "continue"], {"a": (-3, 9)}))
     # nesting: break / continue bind to the innermost loop
     for inner, outer in itertools.product(("break", "continue"), repeat=2):
         for h1, h2 in (("for", "for"), ("for", "while"), ("while", "for"), ("do", "for"), ("for", "do"), ("while", "do")):
